@@ -10,6 +10,7 @@ import MosnVerif.Model.Http1Method
 import MosnVerif.Model.Http1Framing
 import MosnVerif.Lemmas.Reencode
 import MosnVerif.Model.ReencodeSpec
+import MosnVerif.Lemmas.EncodeState
 /-!
 # C01 — forwarding fidelity (property theorems only)
 
@@ -754,5 +755,123 @@ example : forwardResp true 200 (parsedResp 200 "hchunked" 0) [] = none := by dec
 example : forwardResp false 304 (parsedResp 304 "hchunked" 0) [] = none := by decide
 
 end Http1Framing
+
+/-! ## encoding the same frame OBJECT again after it was modified (retry on another host, mirror)
+
+`Model/EncodeState.lean`: the frame object is a record of mutable parts (plain fields, header block + `Changed`, body
+buffer with its read cursor, raw frame, `ContentChanged`, stored length fields) and `Encode` is a state transformer
+`object → object × bytes`.  What the encoder of each codec does to each IoBuffer part (peek: `Bytes()`, `Len()`, … /
+consume: `WriteTo`, `Read`, `Drain`, …) and which fields it assigns are regenerated from the Go AST of the eight encode
+functions (`Gen/C01EncodeEffect.lean`). -/
+section EncodeState
+open MosnVerif.Model.EncodeState MosnVerif.Gen.C01EncodeEffect
+
+/-- what the extractor found in the current source: every access of every encode function to an IoBuffer field of the
+frame is non-consuming, and the only fields assigned are the three recomputed length fields (this is the statement that
+stops checking when `buf.Write(x.Content.Bytes())` becomes `x.Content.WriteTo(buf)`) -/
+theorem encoders_do_not_consume_the_frame : ∀ p ∈ all, benign p.2 = true := all_benign
+
+/-- **encode_idempotent_on_frame**: for every codec whose encode function is one of the eight regenerated ones — with
+ANY byte-level encoder `C.enc`, fast-path test, id setter (a later `SetRequestId` hides an earlier one) — every frame
+object `o`, every list of modifications (header `Set` / `Del`, `SetData`, plain-field updates) applied before the first
+encode, and every list of tries (any number, any ids): the k-th `Encode` of the SAME object writes exactly what a first
+`Encode` of the modified frame with the k-th id writes. -/
+theorem encode_idempotent_on_frame {F : Type} (C : Codec F) (name : String) (hC : (name, C.eff) ∈ all)
+    (hid : ∀ f a b, C.setId (C.setId f a) b = C.setId f b) (o : Obj F) (mods : List (EncodeState.Mod F)) (ids : List Nat) :
+    tries C ids (mods.foldl (applyMod C) o) =
+      ids.map (fun i => C.enc (viewWithId C (mods.foldl (applyMod C) o).view i)) :=
+  tries_stable C (all_benign _ hC) hid ids _
+
+/-- … in particular with the same id, for every n ≥ 1 the n-th encode yields the same bytes as the first -/
+theorem encode_nth_equals_first {F : Type} (C : Codec F) (name : String) (hC : (name, C.eff) ∈ all)
+    (hid : ∀ f a b, C.setId (C.setId f a) b = C.setId f b) (o : Obj F) (mods : List (EncodeState.Mod F)) (i n : Nat) :
+    tries C (List.replicate (n + 1) i) (mods.foldl (applyMod C) o) =
+      List.replicate (n + 1) ((encode C { (mods.foldl (applyMod C) o) with fx := C.setId (mods.foldl (applyMod C) o).fx i }).2) := by
+  rw [encode_idempotent_on_frame C name hC hid, encode_bytes, view_setId, List.map_replicate]
+
+theorem boltEff_mem (k : Bolt.KindId) : ∃ name, (name, boltEff k) ∈ all := by
+  cases k
+  · exact ⟨"boltRequest", by simp [all, boltEff]⟩
+  · exact ⟨"boltResponse", by simp [all, boltEff]⟩
+  · exact ⟨"boltv2Request", by simp [all, boltEff]⟩
+  · exact ⟨"boltv2Response", by simp [all, boltEff]⟩
+
+/-- **bolt_reencode_modified** (composition with `bolt_modified_roundtrip`): take any frame either codec decoded from any
+bytes, apply any list of header `Set` / `Del`, `SetData`, `Class`, then encode the same frame OBJECT for any list of tries:
+try k writes `Bolt.encode` of the modified frame with id k — so, if the frame was marked dirty, either the modified message
+is representable and EVERY try's output decodes to exactly the modified class / pairs / body with that try's id, or it
+is not and every try is refused. -/
+theorem bolt_reencode_modified (c : Codec) (b : Bytes) (f : Frame) (n : Nat) (h : decode c b = .frame f n)
+    (ops : List Op) (ids : List Nat) :
+    tries (boltCodec (boltEff f.kind)) ids ((ops.map modOfOp).foldl (applyMod (boltCodec (boltEff f.kind))) (ofBolt f)) =
+      ids.map (fun i => encode (setId (modify ops f) i)) ∧
+    ((modify ops f).hdrChanged = true ∨ (modify ops f).contentChanged = true →
+      ∀ i ∈ ids,
+        let m := setId (modify ops f) i
+        (Ref.representable m = true ∧ ∃ out, encode m = some out ∧
+          decode c out = .frame
+            { kind := f.kind, fx := { f.fx with reqId := i % 2 ^ 32 }, classLen := m.cls.length,
+              headerLen := BoltHeader.encodeLen m.kvs, contentLen := m.content.length, cls := m.cls, kvs := m.kvs,
+              content := m.content, raw := some out, hdrChanged := false, contentChanged := false } out.length)
+        ∨ (Ref.representable m = false ∧ encode m = none)) := by
+  obtain ⟨name, hmem⟩ := boltEff_mem f.kind
+  refine ⟨?_, fun hd i _ => bolt_modified_roundtrip c b f n h ops i hd⟩
+  have := encode_idempotent_on_frame (boltCodec (boltEff f.kind)) name hmem (boltCodec_setId_absorb _) (ofBolt f)
+    (ops.map modOfOp) ids
+  rw [this]
+  apply List.map_congr_left
+  intro i _
+  show encode (viewToBolt (viewWithId (boltCodec (boltEff f.kind)) _ i)) = _
+  rw [viewToBolt_withId, viewToBolt_mods, viewToBolt_ofBolt]
+
+/-- **dubbo_reencode_body** (composition with `dubbo_body_roundtrip`): after `SetData d` on a decoded dubbo frame every
+try of the same frame object writes the frame that decodes to the original magic / flag / status, that try's id,
+`DataLen = |d|` and payload `d`. -/
+theorem dubbo_reencode_body (svcOK svcOK' : Bytes → Bool) (b : Bytes) (f : Dubbo.Frame) (n : Nat)
+    (h : Dubbo.decode svcOK b = .frame f n) (d : Bytes) (ids : List Nat) (hd : 16 + d.length < 4294967296)
+    (hsvc : (!Dubbo.isEvent f.flag && Dubbo.isRequest f.flag) = true → svcOK' d = true) :
+    tries (dubboCodec dubboFrame) ids (applyMod (dubboCodec dubboFrame) (ofDubbo f) (.data d)) =
+      ids.map (fun i => some (Dubbo.encode (Dubbo.setId (Dubbo.setData f d) i))) ∧
+    ∀ i ∈ ids,
+      let out := Dubbo.encode (Dubbo.setId (Dubbo.setData f d) i)
+      Dubbo.decode svcOK' out =
+        .frame { f with id := i % 2 ^ 64, dataLen := d.length, payload := d, raw := some out } out.length := by
+  refine ⟨?_, fun i _ => dubbo_body_roundtrip svcOK svcOK' b f n h d i hd hsvc⟩
+  have := encode_idempotent_on_frame (dubboCodec dubboFrame) "dubboFrame" (by simp [all, dubboCodec]) (dubboCodec_setId_absorb _)
+    (ofDubbo f) [.data d] ids
+  simp only [List.foldl_cons, List.foldl_nil] at this
+  rw [this]
+  apply List.map_congr_left
+  intro i _
+  show some (Dubbo.encode (viewToDubbo (viewWithId (dubboCodec dubboFrame) _ i))) = _
+  rw [viewToDubbo_withId, viewToDubbo_setData, viewToDubbo_ofDubbo]
+
+/-! ### non-vacuity, and what a consuming read does -/
+/-- a toy byte-level encoder: id byte, header pairs count, then the visible body -/
+def toyCodec (eff : Effect) : EncodeState.Codec Nat :=
+  { eff := eff, isFast := fun v => v.raw.isSome && !v.changed && !v.contentChanged,
+    enc := fun v => some (UInt8.ofNat v.fx :: UInt8.ofNat v.kvs.length :: UInt8.ofNat v.content.length :: v.content),
+    lensOf := fun v => (0, v.kvs.length, v.content.length), setId := fun _ i => i, dataDropsRaw := false,
+    onData := fun f _ => f }
+def exObj : Obj Nat :=
+  { fx := 0, kvs := [], changed := false, content := ⟨[0x61, 0x62], 0⟩, contentChanged := false, raw := some ⟨[9, 9], 0⟩ }
+def consuming : Effect :=
+  { boltv2Request with slow := [{ part := .content, field := "Content", via := "WriteTo", acc := .consume }] }
+-- the regenerated effect: header Set + SetData, three tries (ids 7, 7, 8): the body is there every time
+example : tries (toyCodec boltv2Request) [7, 7, 8] ([EncodeState.Mod.set [1] [2], .data [5, 6, 7]].foldl (applyMod (toyCodec boltv2Request)) exObj)
+    = [some [7, 1, 3, 5, 6, 7], some [7, 1, 3, 5, 6, 7], some [8, 1, 3, 5, 6, 7]] := by decide
+-- `Content.WriteTo(buf)` instead of `buf.Write(Content.Bytes())`: the first encode is right, every later one has
+-- ContentLen 0 and no body
+example : benign consuming = false := by decide
+example : tries (toyCodec consuming) [7, 7, 8] ([EncodeState.Mod.set [1] [2]].foldl (applyMod (toyCodec consuming)) exObj)
+    = [some [7, 1, 2, 0x61, 0x62], some [7, 1, 0], some [8, 1, 0]] := by decide
+-- an unmodified frame takes the raw-frame block: the consuming read of the slow path is not reached
+example : tries (toyCodec consuming) [7, 7] exObj = [some [7, 0, 2, 0x61, 0x62], some [7, 0, 2, 0x61, 0x62]] := by decide
+-- the real bolt model behind the same transformer: a decoded request, header Set, two tries
+example : tries (boltCodec boltRequest) [5, 5] ([modOfOp (.set [0x6b] [0x76])].foldl (applyMod (boltCodec boltRequest)) (ofBolt exHeartbeat))
+    = [encode (setId (modify [.set [0x6b] [0x76]] exHeartbeat) 5), encode (setId (modify [.set [0x6b] [0x76]] exHeartbeat) 5)] := by
+  decide
+
+end EncodeState
 
 end MosnVerif.Props.C01
